@@ -310,6 +310,7 @@ let run_disp () =
         match next () with
         | "reg" -> let i = nnat () in let k = kind_of_string (next ()) in let h = nnat () in ReReg (i, k, h)
         | "unreg" -> let i = nnat () in let k = kind_of_string (next ()) in let h = nnat () in ReUnreg (i, k, h)
+        | "ndisp" -> let i = nnat () in let k = kind_of_string (next ()) in ReDisp (i, k)
         | t -> failwith ("reop: " ^ t)) in
       (res, ops))))) in
   let beh h n =
@@ -325,14 +326,18 @@ let run_disp () =
     | "unreg" -> let i = nnat () in let k = kind_of_string (next ()) in let h = nnat () in DUnregister (i, k, h)
     | "disp" -> let i = nnat () in let k = kind_of_string (next ()) in DDispatch (i, k)
     | t -> failwith ("disp op: " ^ t)) in
-  let (_, out) = d_run beh (d_init (nat_of_int ninst) (nat_of_int nh)) ops in
-  List.iter (fun items ->
-    pf "op";
+  let (_, out) = d_run beh (nat_of_int 60) (d_init (nat_of_int ninst) (nat_of_int nh)) ops in
+  let rec pitems items =
     List.iter (fun it -> match it with
       | DCall (i, k, h) -> pf " | call %d %s %d" (int_of_nat i) (string_of_kind k) (int_of_nat h)
       | DProto (i, k) -> pf " | proto %d %s" (int_of_nat i) (string_of_kind k)
       | DValueError -> pf " | valueerror"
-      | DNoWrapper -> pf " | nowrapper") items;
+      | DNoWrapper -> pf " | nowrapper"
+      | DNest (i, k, sub) -> pf " | enter %d %s" (int_of_nat i) (string_of_kind k); pitems sub; pf " | exit"
+      | DOutOfFuel -> pf " | outoffuel") items in
+  List.iter (fun items ->
+    pf "op";
+    pitems items;
     pf "\n") out
 
 let run_trip () =
